@@ -248,7 +248,8 @@ def judge(r):
     if r.get("panic"):
         bad("panic" if r.get("phase") not in ("reload", "recrash") else "read",
             "phase %s: %s" % (r.get("phase"), r["panic"][:400]),
-            key=f6key if "If we go to prune an inbound HTLC it should be present" in r["panic"] else None)
+            key=f6key if ("If we go to prune an inbound HTLC it should be present" in r["panic"]
+                          or "We shouldn't claim duplicatively from a payment" in r["panic"]) else None)
         return V, st
     if not r.get("read_ok"):
         bad("read", "ChannelManager read did not succeed")
@@ -410,8 +411,10 @@ def judge(r):
             bad("stuck", "node %d chan %s still has %d/%d HTLCs pending after recovery (and on-chain resolution of closed channels)" % (c["n"], c["chan"], c["in"], c["out"]),
                 key=f4key)
     if not closed_any:
-        if r["errs"]:
-            bad("errors", "protocol errors although no channel was stale: " + "; ".join(r["errs"][:2])[:300])
+        # errors sent before the crash belong to the scenario (a scripted force-close whose own close did not survive)
+        new_errs = r["errs"][len(r.get("prefix_errs", [])):]
+        if new_errs:
+            bad("errors", "protocol errors although no channel was stale: " + "; ".join(new_errs[:2])[:300], key=f4key)
     return V, st
 
 
